@@ -39,7 +39,7 @@ def z3str(val):
     return _ESC.sub(lambda m: chr(int(m.group(1), 16)), val.as_string())
 
 
-def model_to_dict(model, leaves):
+def model_to_dict(model, leaves, ctx=None):
     """Concrete values of the named leaves of the pre-state (for replay)."""
     out = {}
     if model is None:
@@ -58,6 +58,24 @@ def model_to_dict(model, leaves):
                     out[name] = float(val.as_fraction()) if z3.is_rational_value(val) else str(val)
                 else:
                     out[name] = str(val)
+            elif kind == 'symlist' and ctx is not None:
+                h = ctx.heap[v.oid]
+                n = model.eval(h.fields['len'].t, model_completion=True).as_long()
+                n = max(0, min(n, 6))
+                out[name + '.len'] = n
+                for (arr, ty) in h.fields['comps']:
+                    cn = str(arr).split('!')[0]
+                    for i in range(n):
+                        val = model.eval(z3.Select(arr, i), model_completion=True)
+                        key = '%s[%d]' % (cn, i)
+                        if z3.is_int_value(val):
+                            out[key] = val.as_long()
+                        elif z3.is_string_value(val):
+                            out[key] = z3str(val)
+                        elif z3.is_true(val) or z3.is_false(val):
+                            out[key] = z3.is_true(val)
+                        else:
+                            out[key] = str(val)
         except Exception as e:        # model extraction is best effort
             out[name] = '<%s>' % e
     return out
@@ -179,7 +197,7 @@ def run_task(task):
                     if kf is not None:
                         v, rec = apply_known(kf, ob, v, rec, getattr(pr, 'ctx', None), budget)
                 if v.status == 'refuted':
-                    rec['model'] = model_to_dict(v.model, pr.leaves)
+                    rec['model'] = model_to_dict(v.model, pr.leaves, getattr(pr, 'ctx', None))
                     rec['model_extra'] = extra_model(v.model, getattr(pr, 'ctx', None))
                 if v.status != 'proved' or want_smt:
                     try:
